@@ -53,6 +53,17 @@ class SmallCache(kvfile.KVFile):
         super().__init__(*a, **k)
 
 
+def run_sort_both(kind, vals, keyform, reverse, batch_size):
+    """resources=None: the first resource's key field holds text, the second's the given values."""
+    rows = [{'f': v, 'g': 5 if keyform == 'format2' else (len(vals) - i) % 2, 'id': i} for i, v in enumerate(vals)]
+    first = [{'f': t, 'g': 1, 'id': 100 + i} for i, t in enumerate(['b', 'a', 'c'])]
+    st = mkstate([('first', [('f', 'string'), ('g', 'integer'), ('id', 'integer')], first),
+                  ('t', [('f', 'number' if kind == 'num' else 'string'), ('g', 'integer'), ('id', 'integer')], rows)])
+    out = core.materialise(core.from_state(st), core.dataflows.sort_rows(build_key(keyform), resources=None, reverse=reverse,
+                                                                      batch_size=batch_size))
+    return rows, first, out
+
+
 def run_sort(kind, vals, keyform, reverse, batch_size, small_cache):
     rows = [{'f': v, 'g': 5 if keyform == 'format2' else (len(vals) - i) % 2, 'id': i} for i, v in enumerate(vals)]
     st = mkstate([('t', [('f', 'number' if kind == 'num' else 'string'), ('g', 'integer'), ('id', 'integer')], rows),
@@ -85,9 +96,17 @@ def classify(kind, x, y):
 def check(case):
     kind, keyform, reverse, bs, small = case['kind'], case['key'], case['reverse'], case['batch'], case['small']
     vals = [dec(v) for v in case['vals']]
-    label = 'sort_rows(key=%s, reverse=%s, batch_size=%d%s) on f=%r' % (keyform, reverse, bs, ', cache=2' if small else '', vals)
+    label = 'sort_rows(key=%s, reverse=%s, batch_size=%d%s%s) on f=%r' % (keyform, reverse, bs, ', cache=2' if small else '', ', resources=None over a text-keyed and this resource' if case.get('both') else '', vals)
     try:
-        rows, out = run_sort(kind, vals, keyform, reverse, bs, small)
+        if case.get('both'):
+            rows, first, out = run_sort_both(kind, vals, keyform, reverse, bs)
+            asc1 = sorted(first, key=lambda r: (model_key('text', keyform, r), r['id']))
+            exp1 = list(reversed(asc1)) if reverse else asc1
+            if [r['id'] for r in out.rows[0]] != [r['id'] for r in exp1]:
+                return [('order/first-of-two-resources', '%s: the first resource came out as %r' % (label, [r['f'] for r in out.rows[0]]))], 'violated', True
+            out = core.State(out.desc, [out.rows[1], [{'f': 'z'}, {'f': 'a'}]])
+        else:
+            rows, out = run_sort(kind, vals, keyform, reverse, bs, small)
     except core.CaseTimeout:
         raise
     except Exception as e:
@@ -141,6 +160,9 @@ def cases(tier):
                 cfgs = red_cfg[:2]
             for k, r, b, s in cfgs:
                 out.append({'kind': kind, 'vals': [enc(v) for v in vals], 'key': k, 'reverse': r, 'batch': b, 'small': s})
+            if len(vals) in (2, 3) and kind == 'num':
+                for k in ('format', 'list1', 'list2'):
+                    out.append({'kind': kind, 'vals': [enc(v) for v in vals], 'key': k, 'reverse': False, 'batch': 1000, 'small': False, 'both': True})
     return out
 
 
